@@ -69,6 +69,8 @@ Rules == {
   [name |-> "multisig-dummy-not-null",           stage |-> "connect", edge |-> TRUE],   \* BIP147: dummy 0x01 / empty
   [name |-> "witness-script-false",              stage |-> "connect", edge |-> FALSE],  \* BIP141
   [name |-> "witness-program-mismatch",          stage |-> "connect", edge |-> TRUE],   \* BIP141: wrong / right witness script for the committed hash
+  [name |-> "taproot-uncommitted-script-path",   stage |-> "connect", edge |-> FALSE],  \* BIP341: revealed OP_SUCCESS leaf, control block not committing to the output key
+  [name |-> "witness-checksig-undecodable-key",  stage |-> "connect", edge |-> TRUE],   \* valid side only: key in compressed format that is no curve point => the check is false, never an error
   [name |-> "taproot-bad-signature",             stage |-> "connect", edge |-> FALSE]   \* BIP341 key path
 }
 
